@@ -46,15 +46,22 @@ static const MPT_STRUCT(type_traits) *etraits;
 /* rec kind bookkeeping */
 static uint8_t live[MAXID];   /* 0 = not alive, else 1 + value */
 static uint32_t next_id;
-static long n_bad, n_init, n_copy, n_fini, fail_at, fail_mode;
+static long n_bad, n_init, n_copy, n_fini, fail_at, fail_mode, fail_next;
 
 static int rec_init(void *ptr, const void *src)
 {
 	struct elem *e = (struct elem *) ptr;
 	const struct elem *s = (const struct elem *) src;
+	if (!s && fail_next) {       /* the default construction replacing a failed copy fails too */
+		fail_next = 0;
+		return -1;
+	}
 	if (s) {
 		++n_copy;
-		if (fail_at && n_copy == fail_at) return -1;
+		if (fail_at && n_copy == fail_at) {
+			fail_next = fail_mode;
+			return -1;
+		}
 		if (s->magic != M_LIVE && s->magic != M_SRC) ++n_bad;   /* copy of something that is no element */
 	}
 	++n_init;
@@ -369,6 +376,8 @@ static void drv_step(struct cmd *c)
 		src = make_src(data, dl);
 	}
 	fail_at = (long) drv_int(c, "fail", 0);
+	fail_mode = (long) drv_int(c, "fm", 0);
+	fail_next = 0;
 
 	if (!strcmp(a, "new")) {
 		int flags = (drv_int(c, "imm", 0) ? MPT_ENUM(BufferImmutable) : 0)
@@ -449,7 +458,7 @@ static void drv_step(struct cmd *c)
 		drv_dbg();
 		drv_end();
 	}
-	fail_at = 0;
+	fail_at = fail_mode = fail_next = 0;
 	free_src(src, dl);
 	free(data);
 }
